@@ -30,7 +30,7 @@ def apply_edits(dst, edits):
         p = os.path.join(dst, path)
         s = open(p).read()
         if s.count(old) < 1:
-            raise SystemExit("edit does not apply: %s: %r not found" % (path, old[:60]))
+            raise ValueError("edit does not apply: %s: %r not found" % (path, old[:60]))
         s = s.replace(old, new, 1)
         open(p, "w").write(s)
 
@@ -54,6 +54,7 @@ def main():
     ap.add_argument("--kind")
     ap.add_argument("--verify-tests", action="store_true")
     ap.add_argument("--repo", default="/repo")
+    ap.add_argument("--jobs", type=int, default=5)
     a = ap.parse_args()
     import cases
 
@@ -66,19 +67,84 @@ def main():
         todo = [c for c in todo if ps & set(c["props"])]
     if a.kind:
         todo = [c for c in todo if c["kind"] == a.kind]
-    dst = os.path.join(SCRATCH, "repo")
-    bad = 0
+    from concurrent.futures import ThreadPoolExecutor
+    import threading
+
+    lock = threading.Lock()
     results = []
-    for c in todo:
+    badc = [0]
+
+    def work(arg):
+        wi, c = arg
+        dst = os.path.join(SCRATCH, "repo-%d-%d" % (os.getpid(), wi % a.jobs))
+        return c, run_case(c, dst, a)
+
+    def run_case(c, dst, a):
+        lines = []
+        bad = 0
+        with slot_locks[hash(dst) % len(slot_locks)]:
+            sync(a.repo, dst)
+            try:
+                apply_edits(dst, c["edits"])
+            except ValueError as e:
+                return 1, ["FAIL %-5s %-28s %s" % (c["kind"], c["id"], e)], {"id": c["id"], "error": str(e)}
+            t0 = time.time()
+            row = {"id": c["id"], "kind": c["kind"], "props": {}}
+            if a.verify_tests:
+                okk, n, tail = cargo_test(dst)
+                row["tests"] = {"ok": okk, "passed": n}
+                if not okk:
+                    lines.append("  [%s] NOTE: repo tests do not pass with this edit (%d passed)" % (c["id"], n))
+            for prop in c["props"]:
+                if a.props and prop not in a.props.split(","):
+                    continue
+                rc, out = run_check(prop, dst)
+                fired = [l for l in out.splitlines() if l.startswith("VIOLATION")]
+                aerr = [l for l in fired if "analysis-error" in l or "internal-error" in l]
+                if c["kind"] == "break":
+                    okk = rc == 1 and bool(fired) and not (aerr and len(aerr) == len(fired))
+                    for ek in c.get("expect_key", []):
+                        if not any(ek in l for l in fired):
+                            okk = False
+                else:
+                    okk = rc == 0 and not fired
+                row["props"][prop] = {"ok": okk, "rc": rc, "violations": len(fired)}
+                lines.append("%s %-5s %-28s %s rc=%d violations=%d %.1fs" % ("ok  " if okk else "FAIL", c["kind"], c["id"], prop, rc, len(fired), time.time() - t0))
+                if not okk:
+                    bad += 1
+                    for l in (fired or out.splitlines()[-5:])[:4]:
+                        lines.append("       | " + l[:300])
+        return bad, lines, row
+
+    slot_locks = [threading.Lock() for _ in range(a.jobs)]
+    # one scratch directory per worker slot
+    def work2(arg):
+        wi, c = arg
+        slot = wi % a.jobs
+        dst = os.path.join(SCRATCH, "repo-%d-%d" % (os.getpid(), slot))
+        with slot_locks[slot]:
+            pass
+        return run_case_slot(c, dst, slot)
+
+    def run_case_slot(c, dst, slot):
+        with slot_locks[slot]:
+            return run_case_nolock(c, dst)
+
+    def run_case_nolock(c, dst):
+        lines = []
+        bad = 0
         sync(a.repo, dst)
-        apply_edits(dst, c["edits"])
+        try:
+            apply_edits(dst, c["edits"])
+        except ValueError as e:
+            return 1, ["FAIL %-5s %-28s %s" % (c["kind"], c["id"], e)], {"id": c["id"], "error": str(e)}
         t0 = time.time()
         row = {"id": c["id"], "kind": c["kind"], "props": {}}
         if a.verify_tests:
             okk, n, tail = cargo_test(dst)
             row["tests"] = {"ok": okk, "passed": n}
             if not okk:
-                print("  [%s] NOTE: repo tests do not pass with this edit (%d passed)\n%s" % (c["id"], n, tail[-400:]))
+                lines.append("  [%s] NOTE: repo tests do not pass with this edit (%d passed)" % (c["id"], n))
         for prop in c["props"]:
             if a.props and prop not in a.props.split(","):
                 continue
@@ -93,14 +159,22 @@ def main():
             else:
                 okk = rc == 0 and not fired
             row["props"][prop] = {"ok": okk, "rc": rc, "violations": len(fired)}
-            status = "ok  " if okk else "FAIL"
-            print("%s %-5s %-28s %s rc=%d violations=%d %.1fs" % (status, c["kind"], c["id"], prop, rc, len(fired), time.time() - t0))
+            lines.append("%s %-5s %-28s %s rc=%d violations=%d %.1fs" % ("ok  " if okk else "FAIL", c["kind"], c["id"], prop, rc, len(fired), time.time() - t0))
             if not okk:
                 bad += 1
                 for l in (fired or out.splitlines()[-5:])[:4]:
-                    print("       | " + l[:300])
-        results.append(row)
-    shutil.rmtree(dst, ignore_errors=True)
+                    lines.append("       | " + l[:300])
+        return bad, lines, row
+
+    bad = 0
+    with ThreadPoolExecutor(max_workers=a.jobs) as ex:
+        for b_, lines, row in ex.map(work2, list(enumerate(todo))):
+            bad += b_
+            results.append(row)
+            for l in lines:
+                print(l, flush=True)
+    for slot in range(a.jobs):
+        shutil.rmtree(os.path.join(SCRATCH, "repo-%d-%d" % (os.getpid(), slot)), ignore_errors=True)
     print("selftest: %d case(s), %d failure(s)" % (len(todo), bad))
     with open(os.path.join(HERE, "last_run.json"), "w") as fh:
         json.dump(results, fh, indent=1)
